@@ -106,11 +106,22 @@ def run_shard(args):
     res = {"evaluations": 0, "keys": set(), "tags": {}, "bad": [], "samples": [], "exhaustive_done": False,
            "corpus": 0, "error": None, "exh_cases": 0, "known": {}}
     try:
+        if shard % 2 == 1:
+            # every other shard runs with the library's logging silenced (an application that turns warnings off)
+            import logging
+            logging.disable(logging.CRITICAL)
         prop.setup()
         rng = random.Random((seed * 1000003 + shard * 7919 + 17) & 0xFFFFFFFF)
         t_end = time.time() + seconds
+        nbatch = [0]
 
         def process(cases):
+            nbatch[0] += 1
+            if hasattr(prop, "pure_call") and nbatch[0] % 4 == 1:
+                b = thread_stress(prop, cases)
+                res["threaded"] = res.get("threaded", 0) + 1
+                if b is not None and len(res["bad"]) < 40:
+                    res["bad"].append(b)
             ios = [prop.impl(fresh(c)) for c in cases]
             mos = core.run_driver([prop.request(c, io) for c, io in zip(cases, ios)])
             for c, io, mo in zip(cases, ios, mos):
@@ -191,6 +202,80 @@ def match_known(pid, bad, prop):
     return None
 
 
+def thread_stress(prop, cases, threads=4):
+    """pure evaluators must give the same answers when several threads call them at once (on different inputs): the first
+    inputs of the batch are evaluated alone, then by `threads` threads in interleaved orders with a tiny switch interval"""
+    import threading
+    sub = [fresh(c) for c in cases[:48]]
+    if len(sub) < 2:
+        return None
+    try:
+        expected = [prop.pure_call(c) for c in sub]
+    except Exception:
+        return None
+    errs = []
+    old = sys.getswitchinterval()
+    sys.setswitchinterval(1e-6)
+    try:
+        def worker(off):
+            n = len(sub)
+            for rep in range(3):
+                for j in range(n):
+                    if errs:
+                        return
+                    i = (j * 7 + off * 13 + rep) % n
+                    try:
+                        got = prop.pure_call(sub[i])
+                    except Exception as e:
+                        got = "!" + type(e).__name__
+                    if got != expected[i]:
+                        errs.append((i, got))
+                        return
+        ts = [threading.Thread(target=worker, args=(k,)) for k in range(threads)]
+        for t in ts:
+            t.start()
+        for t in ts:
+            t.join()
+    finally:
+        sys.setswitchinterval(old)
+    if not errs:
+        return None
+    i, got = errs[0]
+    return {"case": {**cases[i], "companions": [c for c in cases[:16]], "threads": threads}, "impl": got, "model": expected[i],
+            "agree": True, "holds": False, "env": {"threads": threads},
+            "why": (f"evaluated by {threads} threads at once (each on other inputs) the answer is {str(got)[:120]}; evaluated alone it is "
+                    f"{str(expected[i])[:120]} -- the function keeps state between calls")}
+
+
+def run_shard_subprocess(pid, tier, seed, shard, nshards, seconds, extra_env):
+    """one more shard in a child interpreter started with another environment (PYTHONOPTIMIZE=1: `assert` statements are
+    compiled away, as in an application run with -O); returns a Popen whose stdout carries the shard result as JSON"""
+    import subprocess
+    env = dict(os.environ); env.update(extra_env); env["PYTHONHASHSEED"] = os.environ.get("PYTHONHASHSEED", "0")
+    code = ("import sys, json; sys.path.insert(0, %r); from harness import engine, registry; "
+            "a = json.loads(sys.stdin.read()); "
+            "r = engine.run_shard((registry.REGISTRY[a['pid']], a['tier'], a['seed'], a['shard'], a['nshards'], a['seconds'])); "
+            "r['keys'] = sorted(r['keys']); sys.stdout.write(chr(10) + '@@RESULT@@' + json.dumps(r, default=str))" % core.VERIF)
+    p = subprocess.Popen([sys.executable, "-c", code], stdin=subprocess.PIPE, stdout=subprocess.PIPE, stderr=subprocess.PIPE, text=True,
+                         env=env, cwd=core.VERIF)
+    p.stdin.write(json.dumps({"pid": pid, "tier": tier, "seed": seed, "shard": shard, "nshards": nshards, "seconds": seconds}))
+    p.stdin.close()
+    return p
+
+
+def collect_subprocess(p, extra_env):
+    out = p.stdout.read(); err = p.stderr.read(); p.wait()
+    if "@@RESULT@@" not in out:
+        return {"evaluations": 0, "keys": set(), "tags": {}, "bad": [], "samples": [], "exhaustive_done": True, "corpus": 0,
+                "error": f"infra: child interpreter {extra_env} produced no result: {(err or out)[-600:]}", "exh_cases": 0, "known": {}}
+    r = json.loads(out.split("@@RESULT@@", 1)[1])
+    r["keys"] = set(r["keys"])
+    for b in r["bad"]:
+        b["env"] = dict(extra_env)
+        b["why"] = f"[interpreter started with {' '.join(k + '=' + v for k, v in extra_env.items())}] " + b["why"]
+    return r
+
+
 def shrink(prop, bad, deadline):
     """greedy minimisation: keep a candidate while it still fails the same way (holds/agree flags)"""
     cur = bad
@@ -221,7 +306,7 @@ def write_replay(pid, seed, n, kind, bad, broken=None):
         json.dump({"property": pid, "kind": kind, "case": _strip(bad["case"]), "impl_output": bad["impl"],
                    "model_output": bad["model"], "agree": bad["agree"], "holds": bad["holds"], "why": bad["why"],
                    "broken": broken, "shrunk_from": _strip(bad.get("shrunk_from", {})) or None,
-                   "seed": seed, "repo_head": core.repo_head()}, fh, indent=1, default=str)
+                   "env": bad.get("env"), "seed": seed, "repo_head": core.repo_head()}, fh, indent=1, default=str)
     return rel
 
 
@@ -258,11 +343,20 @@ def run_check(prop_factory, tier):
     mult = srcmap.boost(pid, changed)
     seconds *= mult
     args = [(prop_factory, tier, seed, s, nshards, seconds) for s in range(nshards)]
+    opt_env = {"PYTHONOPTIMIZE": "1"}
+    child = None
+    if not sys.flags.optimize and os.environ.get("VERIF_NO_OPT_SHARD") != "1":
+        # one extra shard (its own random stream, generated cases only, half the budget) in an interpreter without asserts
+        child = run_shard_subprocess(pid, "quick", seed, nshards + 1, nshards + 2, max(2.0, seconds / 2), opt_env)
     if nshards == 1:
         results = [run_shard(args[0])]
     else:
         with mp.get_context("fork").Pool(nshards) as pool:
             results = pool.map(run_shard, args)
+    opt_result = None
+    if child is not None:
+        opt_result = collect_subprocess(child, opt_env)
+        results = results + [opt_result]
     errs = [r["error"] for r in results if r["error"]]
     if errs:
         print("INFRA: " + errs[0]); return 2
@@ -349,6 +443,9 @@ def run_check(prop_factory, tier):
         "shards": nshards, "seconds_per_shard": seconds, "lake_build_s": round(bt, 2),
         "repo_head": core.repo_head(),
         "changed_source_functions": (changed if changed is not None else "model_map.json missing"), "budget_multiplier": mult,
+        "environments": {"default interpreter": f"{nshards} shards (odd shards with logging disabled)",
+                         "PYTHONOPTIMIZE=1 (asserts compiled away)": (f"1 extra shard, {opt_result['evaluations']} cases" if opt_result else "not run"),
+                         "4 threads at once (pure evaluators only)": sum(r.get("threaded", 0) for r in results)},
         "leanchecker": ({"modules_rechecked": lc["modules"], "ok": lc["ok"], "wall_s": lc["wall_s"]} if lc else "thorough tier only"),
         "explanation": prop.title,
     }
@@ -371,11 +468,28 @@ def run_replay(path, registry):
     with open(path) as fh:
         r = json.load(fh)
     pid = r["property"]
+    env = r.get("env") or {}
+    if env.get("PYTHONOPTIMIZE") and not sys.flags.optimize:
+        # the failure was found in an interpreter without asserts: replay it in one
+        import subprocess
+        e2 = dict(os.environ); e2["PYTHONOPTIMIZE"] = env["PYTHONOPTIMIZE"]
+        return subprocess.run([sys.executable, os.path.join(core.VERIF, "check.py"), "--replay", path], env=e2, cwd=core.VERIF).returncode
     prop = registry[pid]()
     ok, msg, _ = core.lake_build()
     if not ok:
         print("INFRA: lake build failed\n" + msg); return 2
     prop.setup()
+    if env.get("threads"):
+        comp = r["case"].get("companions") or []
+        me = {k: v for k, v in r["case"].items() if k not in ("companions", "threads")}
+        for _ in range(20):
+            b = thread_stress(prop, [me] + comp, threads=int(env["threads"]))
+            if b is not None:
+                print(json.dumps({"why": b["why"]})[:2000])
+                print(f"VIOLATION property={pid} replay={path}")
+                return 1
+        print("replay no longer fails (20 concurrent rounds)")
+        return 0
     io, mo, v = prop.evaluate(r["case"])
     print(json.dumps({"impl": io, "model": mo, "agree": v.agree, "holds": v.holds, "why": v.why}, default=str)[:4000])
     if not (v.agree and v.holds):
